@@ -1225,7 +1225,7 @@ class KEval:
                 c = r[1] if r and r[0] == "class" else tg[0].cls
                 S.calls.append((tg[0].key, cargs, guards, e))
                 return Ctor(c.key, c.name, cargs)
-        if len(tg) == 1 and depth < self.max_depth and tg[0].name != "__init__":
+        if len(tg) == 1 and depth < self.max_depth and tg[0].name != "__init__" and _inlinable(tg[0]):
             callee = tg[0]
             bind, complete = Project.bind(e, callee)
             if complete:
@@ -1305,6 +1305,19 @@ class KEval:
         if d > 1:
             return Poly.fn("fdiv", p * Poly.const(d), Poly.const(d))
         return Poly.fn("int", p)
+
+
+_SEEN_DECOS: Set[str] = set()
+
+
+def _inlinable(g) -> bool:
+    """a callee is evaluated by substitution only when its decorators do not change what a call computes (a memoising or wrapping decorator makes it an opaque application)"""
+    from .inline import TRANSPARENT_DECORATORS
+    for d in g.decorators:
+        if d not in TRANSPARENT_DECORATORS:
+            _SEEN_DECOS.add(d)
+            return False
+    return True
 
 
 INT_SYMS: Set[str] = set()   # symbols known to be integers: extents of arrays whose shape was given to summarize()
